@@ -143,7 +143,8 @@ def run(ctx):
                         f"Affine_rank{rank}_bias_{bform}", {"site": kind, "rank": rank, "bias": bform})
     # padding strings
     strings = ["same", "valid", "Same", "VALID", "same ", " valid", "", "full", "SAME", "none", "0", "s", "sam",
-               "valid\n", "samе", "reflect", "circular", "zeros", "Valid", "v", "same\t", "val id", "same,valid"]
+               "valid\n", "samе", "reflect", "circular", "zeros", "Valid", "v", "same\t", "val id", "same,valid",
+               "same\x00", "valid\x00\x00", "\x00same", "same\n", "same\r\n", "valid ", "\ufeffsame", "same\u200b"]
     if ctx.tier == "thorough":
         strings += [s.upper() for s in strings] + [s + "x" for s in strings] + ["ｓａｍｅ", "sa​me"]
     forms = []
